@@ -126,11 +126,12 @@ def collectE (inComp : Bool) (e : Expr) (a : Acc) : Acc :=
   | .seq _ _ es _ => collectEs inComp es a
   | .starred _ v _ => collectE inComp v a
   | .namedexpr _ t v =>
-      match t with
-      | .name _ s _ =>
-          let a := if inComp then { a with walrus := s :: a.walrus, escapes := s :: a.escapes } else a.bind s
-          collectE inComp v a
-      | _ => collectE inComp v (collectE inComp t a)
+      if inComp then
+        -- inside a comprehension the target is bound further out
+        match t with
+        | .name _ s _ => collectE inComp v { a with walrus := s :: a.walrus, escapes := s :: a.escapes }
+        | _ => collectE inComp v (collectE inComp t a)
+      else collectE inComp v (collectE inComp t a)
   | .comp i k elts gens =>
       match gens with
       | .comprehension _ t it ifs _ :: rest =>
